@@ -10,8 +10,8 @@ ENUM = "bounded-exhaustive enumeration of a structured input universe on the rea
 
 claimed = {
  "C01": dict(engine="seqx", tech=SEQX, ref="§3/C01",
-   text="Every (reachable state, operation) pair of List and Array up to the size bound, for five element types, is executed on the real code and compared with a Go-slice model, including all out-of-range/zero/negative indices, inverted ranges, empty and receiver-aliased operands and every random answer of ShuffleValues; non-termination is decided by a fuel counter. Constructor operands (Concatenate, MakeFromSequence) are guarded through every later transition; observers are called after every replayed step so that cached state is populated along each path.",
-   note="bounded sizes (3 quick / 5 thorough) and 3-value alphabets; the model admits sets of outcomes where the statement is silent (DESIGN §3/C01)"),
+   text="Every (reachable state, operation) pair of List and Array up to the size bound, for five element types, is executed on the real code and compared with a Go-slice model, including all out-of-range/zero/negative indices, inverted ranges, empty and receiver-aliased operands and every random answer of ShuffleValues; non-termination is decided by a fuel counter. Constructor operands (Concatenate, MakeFromSequence) are guarded through every later transition; observers are called after every replayed step so that cached state is populated along each path. A size ladder (every size 0..40, 130 thorough, x 8 shapes x 22 operations with boundary arguments on fresh objects, and grow/shrink chains through every size on one object) reaches size-dependent code. \"Unchanged\" is judged on what a caller can observe; a private state that differs is a new state of the search.",
+   note="bounded sizes (4 quick / 6 thorough) for the full search and 3-value alphabets; the model admits sets of outcomes where the statement is silent (DESIGN §3/C01)"),
  "C02": dict(engine="seqx", tech=SEQX, ref="§3/C02",
    text="All subsets of a 6/7-value universe are reached through every insertion order and every operation is applied in every state of the real Set, for the default, a reversed and a coarse caller-supplied collator and for int, string, []int, any and set-of-set elements, against a sorted-slice model; strict ascent and GetIndex/GetValue agreement are re-checked through the API after every transition. Constructors are also given set sources ordered by another collator.",
    note="universes of 6/7 values; Set[any] order taken from the collator (decided by C07)"),
@@ -25,8 +25,8 @@ claimed = {
    text="Every (size, slot, second-iterator slot) state of the real iterator times every move including ToSlot(k) for all k in -n-2..n+2, on either of two iterators over one collection, plus snapshot scenarios (take iterator, mutate, walk both ways) for all seven kinds and every mutating operation. An iterator taken after a mutation must show the collection as it is now.",
    note="sizes 0..4/6; ToSlot(k<-size) admits 0 or 1"),
  "C04": dict(engine="vsched", tech=SCHED+" + brute-force FIFO linearizability of every history", ref="§3/C04",
-   text="All interleavings (at synchronisation granularity) of ~50 small closed client programs on one shared real queue are enumerated; every execution is checked for data races (vector clocks over the instrumenter's access log), for FIFO linearizability with pending operations, for the back-pressure bound and for the literal reading of the observers. Programs include refilling after a completed RemoveAll, close/RemoveAll/reuse histories and capacity 0; all interleavings are covered by sleep sets + DPOR where that completes, else preemption bound 2.",
-   note="sequentially consistent interleavings; races detected on struct fields, package variables and maps (not slice elements); 2-5 threads; RemoveAll findings listed in known_findings.json"),
+   text="All interleavings (at synchronisation granularity) of ~55 small closed client programs on one shared real queue are enumerated; every execution is checked for data races (vector clocks over the instrumenter's access log), for FIFO linearizability with pending operations, for the back-pressure bound and for the literal reading of the observers. Programs include refilling after a completed RemoveAll, close/RemoveAll/reuse histories and capacity 0; programs whose threads start after a completed RemoveAll; all interleavings are covered by sleep sets + DPOR where that completes, else preemption bound 2. A send is a read and a close a write of the channel for the race detector, as in Go's runtime. Auxiliary (sampling, adds reports only): the terminating programs run free under Go's race detector.",
+   note="sequentially consistent interleavings; races detected on struct fields, package variables, maps, captured locals and slice elements with pure indices; 2-5 threads; RemoveAll and close-vs-send findings listed in known_findings.json"),
  "C05": dict(engine="vsched", tech=SCHED+"; blocking decided by the scheduler, never by a clock", ref="§3/C05",
    text="The same exhaustive schedule exploration judged by the stuck-call oracle (a parked call is legitimate only if the linearized final state does not permit it to proceed), well-formed pipelines must terminate with everything consumed, and the constructor ladder N=0..64 runs under the scheduler so that a self-deadlock is a scheduler fact. The constructor ladder covers the class-level, module-level and parsed forms for N = 0..64; unbuffered channels are modelled as a rendezvous.",
    note="same bounds as C04"),
@@ -34,28 +34,28 @@ claimed = {
    text="Every interleaving (one execution per Mazurkiewicz trace, by sleep sets) of {caller, feeder, library helper goroutines, one reader per output} for Fork, Split and Split+Join with fan-out 2..3, capacity 1..2 and stream lengths 0..2 (larger ones in the thorough tier) runs on the real code; each output stream is compared with the expected stream, every thread must finish, the caller's wait group must return to zero, nothing may arrive after closure, and every execution is race-checked. When the caller's Wait() returns no library goroutine may be unfinished (scheduler fact).",
    note="sequentially consistent interleavings at synchronisation granularity; the stress clause (sampling) is not a deciding step"),
  "C07": dict(engine="enum", tech=ENUM+" (all pairs and all triples of per-type boundary universes and of a structured mixed universe) + explicit-state search over the collator's private state", ref="§3/C07",
-   text="The full RankValues matrix over every boundary universe (bool, every integer width, floats incl. +-0/Inf/NaN/subnormals, a complex grid incl. signed zeros/Inf/NaN, runes, strings, slices, Go maps in every insertion order, typed collections) and over a structured `any` universe of ~300 nested values is computed on the real collator and checked for reflexivity, mirror symmetry, transitivity on all triples and the natural/lexicographic/key-then-value reference order; rebuilt copies must rank Equal; call histories incl. depth-limit panics must not change later answers. RankValues must be Equal exactly for structurally equal values of the any universe; typed float/complex slices and lists with NaN, nested two-key maps and nil leaves are part of the universes.",
+   text="The full RankValues matrix over every boundary universe (bool, every integer width, floats incl. +-0/Inf/NaN/subnormals, a complex grid incl. signed zeros/Inf/NaN, runes, strings, slices, Go maps in every insertion order, typed collections) and over a structured `any` universe of ~300 nested values is computed on the real collator and checked for reflexivity, mirror symmetry, transitivity on all triples and the natural/lexicographic/key-then-value reference order; rebuilt copies must rank Equal; call histories incl. depth-limit panics must not change later answers. RankValues must be Equal exactly for structurally equal values of the any universe; typed float/complex slices and lists with NaN, nested two-key maps, nil leaves and windows of one backing array (equal-content slices sharing storage, also one level down) are part of the universes.",
    note="only the canonical dynamic types are mixed under the any collator; cross-type order is not specified (laws only)"),
  "C08": dict(engine="enum", tech=ENUM+" (pairs, triples, rebuilt copies, every single-point mutation from a value AST, self-containing values) + explicit-state search over the collator's private state", ref="§3/C08",
-   text="The full CompareValues matrix over the C07 universes: equivalence laws on all pairs/triples, agreement with RankValues==Equal, agreement with an independent structural equality on the value AST, equal rebuilt copies (maps and sets in reversed insertion order), every single-point mutation unequal, self-containing values end in the documented depth-limit panic and leave the collator usable. Self-containing values at even and odd depths (catalog inside one or three lists, map in slices, stack in itself).",
+   text="The full CompareValues matrix over the C07 universes: equivalence laws on all pairs/triples, agreement with RankValues==Equal, agreement with an independent structural equality on the value AST, equal rebuilt copies (maps and sets in reversed insertion order), every single-point mutation unequal, self-containing values end in the documented depth-limit panic and leave the collator usable. Self-containing values at even and odd depths (catalog inside one or three lists, map in slices, stack in itself), compared with themselves and with separately built twins: both must end with the depth-limit panic.",
    note="same universe assumptions as C07"),
  "C09": dict(engine="enum", tech=ENUM+"; the ranking function and the random source are environments whose every answer sequence is enumerated", ref="§3/C09",
-   text="Every array of length 0..9 over 4 values (tagged by position) under four rankers, every answer sequence of an arbitrary ranking function for lengths 0..6, a deterministic ladder of every length to 600 in five shapes, every random answer sequence of ShuffleValues up to length 5, and the Array/List/Catalog methods against the sorter, all on the real sorter; termination by fuel. One sorter instance through a history of sorts (earlier arrays must not change) and every sequence of three reordering calls on one Array, List and Catalog.",
+   text="Every array of length 0..9 over 4 values (tagged by position) under four rankers, every answer sequence of an arbitrary ranking function for lengths 0..6, a deterministic ladder of every length to 600 in five shapes, every random answer sequence of ShuffleValues up to length 5, and the Array/List/Catalog methods against the sorter, all on the real sorter; termination by fuel. One sorter instance through a history of sorts (earlier arrays must not change) and every sequence of three reordering calls on one Array, List and Catalog; catalogs whose keys are distinct but rank Equal (mixed integer kinds in any, pointers to equal values, NaN).",
    note="the sampling clause (random arrays up to 5000) is replaced by the deterministic ladder"),
  "C15": dict(engine="enum", tech=ENUM, ref="§3/C15",
-   text="All pairs of subsets of a 6-value universe (and the same object twice) times And/Or/Sans/Xor for int and string, all pairs over smaller universes for []int, any, sets of sets and for reversed/coarse collators, on the real class functions; operand dumps compared before/after and results and operands mutated afterwards to expose shared state. Operands ordered differently (same equality); results handed out earlier must survive later calls.",
+   text="All pairs of subsets of a 6-value universe (and the same object twice) times And/Or/Sans/Xor for int and string, all pairs over smaller universes for []int, any, sets of sets and for reversed/coarse collators, on the real class functions; operand dumps compared before/after and results and operands mutated afterwards to expose shared state. Operands ordered differently (same equality); results handed out earlier must survive later calls; all ordered pairs of a family of 15 larger sets over 0..47 (sizes 0,1,16,17,20..48; touching, nested, disjoint ranges; with and without the zero value) for int and string. Operand purity is judged on what a caller can observe.",
    note="operands with different collators are not generated"),
  "C16": dict(engine="enum", tech=ENUM, ref="§3/C16",
-   text="All pairs of lists up to length 4 over 3 values, all pairs of catalogs over ordered subsets of 4 keys with operand-specific values (incl. zero values under present keys), every catalog over 3 keys times every key sequence up to length 3 over 4 keys; the expected result is computed from the documented law; purity by private-state dumps and subsequent mutation.",
-   note="string keys, int values"),
- "C18": dict(engine="enum", tech=ENUM, ref="§3/C18",
-   text="The full aliasing matrix: every constructor and accessor of the seven kinds that accepts or returns a Go array, Go map or sequence, sizes 0..4, every position, three mutation modes, observed through private-state dumps; every bulk operation with the receiver or a view of it as operand compared with the call on an independent copy. Collection sources of every kind (same-kind and cross-kind) in both directions.",
+   text="All pairs of lists up to length 4 over 3 values, all pairs of catalogs over ordered subsets of 4 keys with operand-specific values (incl. zero values under present keys), every catalog over 3 keys times every key sequence up to length 3 over 4 keys; the expected result is computed from the documented law; purity by observable views and subsequent mutation. Merge and Extract again over pointer, interface (mixed integer kinds), float (signed zeros) and struct keys, where == and structural equality differ.",
+   note="int values; string keys for the exhaustive part"),
+ "C18": dict(engine="enum+vsched", tech=ENUM+"; stateless model checking (all interleavings) for the sequence returned by Fork/Split", ref="§3/C18",
+   text="The full aliasing matrix: every constructor and accessor of the seven kinds that accepts or returns a Go array, Go map or sequence, sizes 0..4, every position, three mutation modes, observed through private-state dumps; every bulk operation with the receiver or a view of it as operand compared with the call on an independent copy. Collection sources of every kind (same-kind and cross-kind) in both directions. The sequence of output queues returned by Queue.Fork/Split is modified by the caller (at once, or after the first value) under every schedule of caller, feeder, helper and readers.",
    note="Catalog association objects are live handles by design (not treated as aliasing)"),
  "C19": dict(engine="vsched", tech=SCHED+"; all interleavings by sleep sets for the script pairs (operations on different objects commute)", ref="§3/C19",
-   text="All 55 pairs of ten operation families (build, mutate, search, sort via collection, sort via Sorter.Make, compare/rank, String(), FormatValue, ParseSource, iterate) on disjoint instances, for int and []int elements, run in two threads (three in the thorough tier) under the scheduler; every thread's result must equal the script run alone and every execution is race-checked with vector clocks over the instrumenter's access log. First-use programs call the generic class accessors on reset registries with every registry lock a scheduling point (elision off) and must return one class per type. Derived-instances programs (copy, Or result, Concatenate result, GetValues view, iterator, Merge result, two default sorters) used from two threads; a first-use program mints a new Go array type per execution so that per-type caches are written during the explored execution.",
-   note="2-3 goroutines instead of 2..16; memory outside the source-level access log (slice elements, stdlib internals) is not race-checked"),
+   text="All 78 pairs of twelve operation families (build, mutate, search, sort via collection, sort via Sorter.Make, compare/rank, String(), FormatValue, ParseSource with an own and with the class notation, shuffle, iterate) on disjoint instances, for int and []int elements, run in two threads (three in the thorough tier) under the scheduler; every thread's result must equal the script run alone and every execution is race-checked with vector clocks over the instrumenter's access log. First-use programs call the generic class accessors on reset registries with every registry lock a scheduling point (elision off) and must return one class per type. Derived-instances programs (copy, Or result, Concatenate result, GetValues view, iterator, Merge result, two default sorters) used from two threads; a first-use program mints a new Go array type per execution so that per-type caches are written during the explored execution. Auxiliary (sampling, adds reports only): the same script bodies run free in three goroutines under Go's race detector, which also sees memory inside the standard library.",
+   note="2-3 goroutines instead of 2..16; memory outside the source-level access log (whole-slice operations, stdlib internals) is race-checked only by the auxiliary free-running pass"),
  "C20": dict(engine="enum", tech=ENUM+"; every call runs as a one-thread program under the scheduler", ref="§3/C20",
-   text="The cross product of the eight universal constructors, every documented argument form, notation argument absent/first/last, seven element/key types and contents of size 0..20 is compared differentially with the class-level constructor or with ParseSource; Association(k,v) for all 49 type pairs. Zero-valued keys and values for Association.",
+   text="The cross product of the eight universal constructors, every documented argument form, notation argument absent/first/last, seven element/key types and contents of size 0..20 is compared differentially with the class-level constructor or with ParseSource; Association(k,v) for all 49 type pairs. Zero-valued keys and values for Association; Set(collator, data) with collators coarser than or opposite to the natural order in every argument form; the source form called again after an earlier result for the same source was changed (nested collections included).",
    note="source text produced by FormatValue on the class-level collection"),
  "C10": dict(engine="enum+seqx", tech=ENUM+" + explicit-state search over the formatter's private state; parses run as two-thread programs under the scheduler", ref="§3/C10",
    text="A float ladder over every decimal exponent -324..308 (3 mantissas, both signs), a 12x12 complex grid, all 64-bit integer boundaries, every rune 0..0x2ff plus boundary/astral runes, all strings of length <=2 over 10 characters incl. invalid UTF-8, each in value and key positions; all seven kinds at sizes 0..40 and nested in each other to depth 3; chains up to the depth limit: FormatValue -> ParseSource -> independent structural comparison -> text fixpoint. Deeper-than-limit and self-containing values must terminate (fuel) with the elision mark. Every call history over successful, failing and cyclic values on one formatter/notation must give a fresh formatter's output. Elision must not depend on what was formatted before: [X,Y] and [Y,X] must consist of the same lines for every pair of too-deep, cyclic and just-fitting values.",
@@ -64,7 +64,7 @@ claimed = {
    text="Every literal alternative and boundary literal (~150) in nine syntactic positions, and all collections over representative literals (seven contexts, empty/inline/multi-line forms, values and associations with repeated keys, nested to depth 2/3) are parsed on the real code and compared with the expected value tree produced by the generator; literals without an exact representation admit a stated set of outcomes. Documents shorter and longer than the token queue are parsed under every schedule of the two goroutines up to a preemption bound with race detection: the result must not depend on the schedule. Both empty forms with all seven contexts; keys that really repeat (first position, last value).",
    note="Set items are same-type literals; preemption bound 2 (1 for the 34-token document) quick, 3/2 thorough"),
  "C12": dict(engine="enum+vsched", tech=ENUM+"; every parse runs as a two-thread program (parser + scanner) under the cooperative scheduler", ref="§3/C12",
-   text="All strings of <=4 lexemes over an 18-lexeme alphabet (<=5 when starting with '['; <=5/<=6 thorough), all strings of <=3 raw characters, every prefix, single-character deletion, insertion and substitution, context swap and illegal-character injection of a 12-document corpus (incl. documents with more than 16 tokens after every position) and a nesting ladder are parsed on the real scanner+parser; outcome must be a value or a textual diagnostic whose token header matches the source at the reported line/column; a scanner thread still parked after the call is a leak by scheduler fact; non-termination by fuel. One parser instance reused after failing calls must behave like a fresh one; Set/Catalog/List items nested up to 24 deep; non-ASCII text before the error point.",
+   text="All strings of <=4 lexemes over an 18-lexeme alphabet (<=5 when starting with '['; <=5/<=6 thorough), all strings of <=3 raw characters, every prefix, single-character deletion, insertion and substitution, context swap and illegal-character injection of a 16-document corpus (incl. documents with more than 16 tokens after every position) and a nesting ladder are parsed on the real scanner+parser; outcome must be a value or a textual diagnostic whose token header matches the source at the reported line/column; a scanner thread still parked after the call is a leak by scheduler fact; non-termination by fuel. One parser instance reused after failing calls must behave like a fresh one; Set/Catalog/List items nested up to 24 deep; non-ASCII text before the error point; tokens long in bytes but short in characters (and the reverse) as the unexpected token.",
    note="the fuzzing clause is replaced by the larger deterministic enumeration; nesting ladder stops at 233 (2000 thorough) levels"),
  "C13": dict(engine="seqx", tech=SEQX, ref="§3/C13",
    text="Every reachable stack content for capacities 1..4 (7 thorough) times every operation, plus all constructors with 0..33 initial values followed by pushes past capacity and pops past empty, on the real Stack against a slice model with a capacity. Stacks copied from stacks are guarded against shared storage.",
